@@ -184,4 +184,43 @@ PROPS["C12"] = {
     "level_note": "partial: catch-up by AppendEntries is proved for the cut-down model; the snapshot branch and the election bound are covered by H3 only.",
 }
 
+PROPS["C17"] = {
+    "lean_module": "RaftVerif.Props.C17",
+    "theorems": [
+        T("RL.every_future_resolves", "role-loop model: every Apply future that reached the main loop is in flight or resolved exactly once, and nothing is in flight once the server is not leader (step-down, lost election, shutdown) - for every sequence of role changes, calls, commits and shutdown", "partial"),
+        T("RL.refused_call_not_queued", "a call arriving at a non-leader / shut-down server is answered ErrNotLeader / ErrRaftShutdown at once and never queued"),
+    ],
+    "engines": [cluster("C17", 200, 5000)],
+    "assumptions": [H3_NOTE, "a call counts as stranded when it has not resolved after 20 virtual seconds; NotifyCh/Observer consumers and the FSM are live in the harness"],
+    "level_note": "partial: the theorem covers Apply futures in the role loop; the other future kinds and the buffered queues around Shutdown (F5) are covered by the H3 monitor only.",
+}
+
+PROPS["C18"] = {
+    "lean_module": "RaftVerif.Props.C18",
+    "theorems": [
+        T("RL.notify_alternates", "role-loop model: for every sequence of elections, step-downs and shutdown NotifyCh carries true,false,true,... with one message per gain or loss of leadership, and the last value says whether the server is leader now"),
+    ],
+    "engines": [cluster("C18", 200, 5000)],
+    "assumptions": [H3_NOTE, "the NotifyCh consumer of the harness is always ready; Leader()/LeaderWithID faithfulness on followers is not yet monitored"],
+    "level_note": "partial: the `follower names only a real leader of its term` clause rests on election safety (C01) and is not monitored separately yet.",
+}
+
+PROPS["C15"] = {
+    "lean_module": "RaftVerif.Props.C15",
+    "theorems": [
+        T("FSS.list_implies_complete", "every snapshot among the first `retain` of the newest-first scan of ANY crash image has both files, state.bin equal to the bytes handed to the sink and meta.json carrying their CRC"),
+        T("FSS.list_sorted_and_bounded", "List is newest first and at most `retain` long"),
+        T("FSS.unfinished_never_listed", "a sink that did not reach rename (in progress, failed, cancelled, half removed) is invisible"),
+        T("FSS.closed_is_durable", "after Close returned nil the snapshot survives every later crash unless `retain` newer ones displace it"),
+        T("FSS.reap_keeps_newest", "whatever is doomed has at least `retain` newer snapshots that are durable, complete and not doomed"),
+    ],
+    "engines": [
+        {"engine": "filesnap", "bin": "h4", "quick": ["-n", "40"], "thorough": ["-n", "800"], "timeout": 6000},
+    ],
+    "assumptions": ["crash model: namespace operations reach the disk in issue order (ordered journal), fsync of a file or of the parent forces the journal tail; file content written since the file's last fsync is independently kept or lost",
+                    "tie = H4: the real store runs under strace -f; (i) its ordered syscalls equal the model program FSP.program (same label alphabet as the proved transition system FSS) up to bufio write splitting and the unlink order of RemoveAll; (ii) on EVERY crash image of the observed trace (crash after each syscall x journal cut since the last fsync x unsynced data kept/lost) the real List/Open satisfy the Spec",
+                    "the CRC is uninterpreted in the theorems; corrupted-file inputs are covered by the crash images only (torn = un-synced content lost)"],
+    "technique": "Lean 4 proof over a syscall-level transition system + strace-based correspondence and crash-image enumeration",
+}
+
 HOOK_COMMITS = ["dfecdf5"]
